@@ -678,6 +678,18 @@ def subst_index(val, pattern, actual):
 
 def term_getitem(it, base, idx, env, node):
     f = fname(base)
+    if f == "zeros" and isinstance(idx, sp.Basic) and (getattr(idx, "is_Integer", False) or (isinstance(idx, sp.Symbol) and not T.is_str_symbol(idx))):
+        return sp.Integer(0)        # any element of np.zeros(..)
+    # np.stack((r0, r1, ..))[k, j] with a concrete k is r_k[j]
+    if f in ("stack", "vstack") and base.args and isinstance(base.args[0], sp.Tuple) and isinstance(idx, (sp.Tuple, tuple)) \
+            and all(not (isinstance(a, sp.Tuple) and a.args and a.args[0] == Str("axis") and a.args[1] != 0) for a in base.args[1:]):
+        ti_ = to_term(idx)
+        if len(ti_.args) >= 1 and getattr(ti_.args[0], "is_Integer", False) and 0 <= int(ti_.args[0]) < len(base.args[0].args):
+            rest_ = ti_.args[1:]
+            row = base.args[0].args[int(ti_.args[0])]
+            if not rest_:
+                return row
+            return term_getitem(it, row, rest_[0] if len(rest_) == 1 else sp.Tuple(*rest_), env, node)
     # (a < B)[i] for an element-wise comparison of arrays is a < B[i]
     if f in ("lt", "ge", "eq", "ne", "and_", "or_", "not_") and isinstance(idx, sp.Basic) and not isinstance(idx, sp.Tuple) \
             and fname(idx) != "slc" and (isinstance(idx, sp.Symbol) or idx.is_Integer) and not T.is_str_symbol(idx):
